@@ -226,7 +226,7 @@ func runC08(p *Program, r *Result) {
 			if calleeName(c.Common()) != se.String() {
 				continue
 			}
-			if !p.mayBeEOF(rtb, c.Common().Args[1], 0) {
+			if !p.mayBeEOFAt(rtb, c.Common().Args[1], rtb.FactsAt(c.Block()), 0) {
 				continue // only the end-of-armor drain can yield io.EOF
 			}
 			facts := rtb.FactsAt(c.Block())
@@ -382,7 +382,7 @@ func runC08(p *Program, r *Result) {
 		if calleeName(c.Common()) != se.String() {
 			continue
 		}
-		if !p.mayBeEOF(rtb, c.Common().Args[1], 0) {
+		if !p.mayBeEOFAt(rtb, c.Common().Args[1], rtb.FactsAt(c.Block()), 0) {
 			continue
 		}
 		facts := rtb.FactsAt(c.Block())
